@@ -3,6 +3,9 @@ import Mathlib.Algebra.Group.Basic
 import Mathlib.Algebra.Order.Group.Nat
 import Mathlib.Tactic.Ring
 import Mathlib.Tactic.Linarith
+import OpacusLean.Generated.Schedulers
+import Mathlib.Algebra.Group.Defs
+import Mathlib.Tactic.SplitIfs
 /-! # C17 — noise and clipping schedules follow their closed forms and are what is used
 
 All statements are over an arbitrary commutative monoid `R` (so they hold for ℝ, ℚ, …): the
@@ -230,4 +233,46 @@ theorem resume_with_live_value (p : R × Sched R) (k j : Nat) :
   | zero => rfl
   | succ n ih => rw [iter_succ, ih, ← iter_succ]; rfl
 
+/-! ## The tie to the source: definitions regenerated from `opacus/schedulers/*.py` on every run -/
+section generated
+open Opacus.Generated.Sched
+variable {R : Type} [CommSemigroup R]
+
+/-- closes `generated = model` goals up to harmless rewrites of the source (operand order of a commutative
+product, an equivalent way of writing the condition, swapped branches) -/
+macro "gen_eq" : tactic =>
+  `(tactic| first
+    | rfl
+    | (simp only [noiseGetExp, clipGetExp, noiseGetStep, clipGetStep, noiseGetLam, clipGetLam, noiseBaseStep, clipBaseStep,
+          noiseBaseInit, clipBaseInit, noiseConstructExp, clipConstructExp, noiseConstructStep, clipConstructStep,
+          noiseConstructLam, clipConstructLam, value, stepS, construct]
+       split_ifs <;> first | rfl | (simp_all [mul_comm]; done) | (exfalso; simp_all; done) | (exfalso; omega)))
+
+/-- the getters translated from the source are the model's `value` -/
+theorem generated_getters_eq_model (live g b : R) (s : Nat) (f : Int → R) (e : Int) :
+    noiseGetExp live g b s f e = value (.exp g) e live ∧ clipGetExp live g b s f e = value (.exp g) e live ∧
+    noiseGetStep live g b s f e = value (.step g s) e live ∧ clipGetStep live g b s f e = value (.step g s) e live ∧
+    noiseGetLam live g b s f e = value (.lam b f) e live ∧ clipGetLam live g b s f e = value (.lam b f) e live := by
+  refine ⟨?_, ?_, ?_, ?_, ?_, ?_⟩ <;> gen_eq
+
+/-- the translated base-class `step()` is the model's `stepS` -/
+theorem generated_step_eq_model (k : Kind R) (live : R) (e : Int) :
+    noiseBaseStep (fun e l => value k e l) live e = ((stepS live ⟨k, e⟩).1, (stepS live ⟨k, e⟩).2.lastEpoch) ∧
+    clipBaseStep (fun e l => value k e l) live e = ((stepS live ⟨k, e⟩).1, (stepS live ⟨k, e⟩).2.lastEpoch) := by
+  refine ⟨?_, ?_⟩ <;> gen_eq
+
+/-- the translated constructors are the model's `construct`: `last_epoch` as given (default −1), one `step()`,
+and `Lambda*` captures its base BEFORE that first step -/
+theorem generated_construct_eq_model (g : R) (s : Nat) (f : Int → R) (live : R) (e0 : Int) :
+    noiseConstructExp g s f live e0 = ((construct (.exp g) live e0).1, (construct (.exp g) live e0).2.lastEpoch, live) ∧
+    clipConstructExp g s f live e0 = ((construct (.exp g) live e0).1, (construct (.exp g) live e0).2.lastEpoch, live) ∧
+    noiseConstructStep g s f live e0 = ((construct (.step g s) live e0).1, (construct (.step g s) live e0).2.lastEpoch, live) ∧
+    clipConstructStep g s f live e0 = ((construct (.step g s) live e0).1, (construct (.step g s) live e0).2.lastEpoch, live) ∧
+    noiseConstructLam g s f live e0 = ((construct (.lam live f) live e0).1, (construct (.lam live f) live e0).2.lastEpoch, live) ∧
+    clipConstructLam g s f live e0 = ((construct (.lam live f) live e0).1, (construct (.lam live f) live e0).2.lastEpoch, live) := by
+  refine ⟨?_, ?_, ?_, ?_, ?_, ?_⟩ <;> gen_eq
+
+theorem generated_default_last_epoch : noiseDefaultLastEpoch = -1 ∧ clipDefaultLastEpoch = -1 := ⟨rfl, rfl⟩
+
+end generated
 end Opacus.C17
